@@ -173,10 +173,13 @@ class SmilesToken(BigSMILESbase):
                         preceding_characters = preceding_characters[
                             preceding_characters.find("(") + 1 :
                         ]
-                    if ")" in elementB:
-                        preceding_characters += elementB[: preceding_characters.find(")")]
-                    else:
-                        preceding_characters += elementB
+                    following_characters = elementB
+                    for stop in (")", "["):
+                        if stop in following_characters:
+                            following_characters = following_characters[
+                                : following_characters.find(stop)
+                            ]
+                    preceding_characters += following_characters
 
                     bond = BondDescriptor(
                         bond_text,
